@@ -341,5 +341,84 @@ func runC15(r *Run) {
 		r.c15Scenario(trans, I, I, "never-answers-T-equals-I", never, 1200*time.Millisecond, 0, false)
 	}
 	r.c15Scenario("tcp", I, T, "answers-always-after-drop", always, 1800*time.Millisecond, 350*time.Millisecond, false)
+	r.c15AfterAuthRecovery()
 	r.c15Echo()
+}
+
+// c15AfterAuthRecovery: an authenticated client, a peer that goes silent (socket open) so that the keepalive recycles
+// the connection, a recovery that goes through full authentication (the session resume is rejected as unauthenticated),
+// then a peer that answers every heartbeat: the new connection must never be declared dead.
+func (r *Run) c15AfterAuthRecovery() {
+	I, T := 100*time.Millisecond, 250*time.Millisecond
+	time.Sleep(I + 60*time.Millisecond)
+	hub.reset()
+	s := &session{tc: newTestClient(), v: 1, trans: "tcp"}
+	s.tcp = newTCPPeer()
+	stop := make(chan struct{})
+	var mu sync.Mutex
+	nconn := 0
+	go func() {
+		for {
+			pc := s.tcp.accept(4 * time.Second)
+			if pc == nil {
+				return
+			}
+			if !pc.readHandshake(time.Second) {
+				continue
+			}
+			mu.Lock()
+			ci := nconn
+			nconn++
+			mu.Unlock()
+			go func() {
+				n := 0
+				for {
+					select {
+					case <-stop:
+						return
+					default:
+					}
+					f := pc.readFrame(50 * time.Millisecond)
+					if f == nil {
+						if pc.closed {
+							return
+						}
+						continue
+					}
+					if f.Type != 1 {
+						continue
+					}
+					switch f.Cmd {
+					case 2:
+						pc.send(respFrame(1, 2, f.Rid, 0, authRespBody("sess", 600000)))
+					case 3:
+						pc.send(respFrame(1, 3, f.Rid, 5, errBody(401, "unauthenticated")))
+					case 1:
+						if ci > 0 || n < 2 {
+							pc.send(respFrame(1, 1, f.Rid, 0, f.Body))
+						}
+						n++
+					}
+				}
+			}()
+		}
+	}()
+	err := s.tc.dial(s.tcp.url(), 1, client.Keepalive(I), client.KeepaliveTimeout(T), client.DialTimeout(time.Second), client.AuthTimeout(time.Second),
+		client.WithAuthTokenGetter(func() (string, error) { return "tok", nil }))
+	if err == nil {
+		time.Sleep(2200 * time.Millisecond)
+		mu.Lock()
+		n := nconn
+		mu.Unlock()
+		cs := "tcp I=100ms T=250ms: authenticated, first connection answers 2 heartbeats then goes silent, resume rejected as unauthenticated -> AUTH, later connections answer always"
+		if n < 2 {
+			r.violate(Violation{What: "a peer that stopped answering was not detected / the connection was not recycled", Case: cs})
+		} else if n > 2 {
+			r.violate(Violation{What: fmt.Sprintf("a peer that answers every heartbeat was declared dead after a recovery through authentication: %d connections instead of 2", n), Case: cs})
+		}
+		r.st.Evaluations++
+		r.count("c15.tcp.after-auth-recovery")
+	}
+	close(stop)
+	s.close()
 }
